@@ -45,7 +45,7 @@ func genString() *rapid.Generator[string] {
 	return rapid.OneOf(
 		rapid.SampledFrom([]string{"", "", "a", "node-1", "127.0.0.1:8080", "/user/a", "\x00", "\xff\xfe", "日本語", string(make([]byte, 255)), string(make([]byte, 256)), string(make([]byte, 300))}),
 		rapid.StringN(0, 40, 200),
-		rapid.StringOfN(rapid.RuneFrom(nil, nil), 0, 8, 64),
+		rapid.String(),
 	)
 }
 
@@ -300,6 +300,9 @@ func fill(t *rapid.T, v reflect.Value, o Opt, depth int, path string) {
 	}
 }
 
+// FillValue fills an addressable value of a plain (primitive / slice / array / struct) type.
+func FillValue(t *rapid.T, v reflect.Value) { fill(t, v, Opt{}, 0, "") }
+
 // ---------------------------------------------------------------------------
 // semantic equality
 
@@ -346,7 +349,15 @@ func Equal(want, got reflect.Value, path string) error {
 		}
 		return nil
 	case typ == tVErr:
-		a, b := want.Addr().Interface().(*vivid.Error), got.Addr().Interface().(*vivid.Error)
+		mk := func(v reflect.Value) *vivid.Error {
+			if v.CanAddr() {
+				return v.Addr().Interface().(*vivid.Error)
+			}
+			c := reflect.New(v.Type())
+			c.Elem().Set(v)
+			return c.Interface().(*vivid.Error)
+		}
+		a, b := mk(want), mk(got)
 		if a.GetCode() != b.GetCode() || a.GetMessage() != b.GetMessage() {
 			return fmt.Errorf("%s: error (%d,%q) vs (%d,%q)", path, a.GetCode(), a.GetMessage(), b.GetCode(), b.GetMessage())
 		}
@@ -494,5 +505,5 @@ func IsZero(m any) bool {
 	if v.Kind() == reflect.Ptr {
 		v = v.Elem()
 	}
-	return Equal(reflect.Zero(v.Type()), v, "") == nil
+	return Equal(reflect.New(v.Type()).Elem(), v, "") == nil
 }
